@@ -65,6 +65,9 @@ def _framework_of_case(c):
     return live, rel
 
 
+POLY_STATS = {"statuses_decided": 0, "returned_sets_tested": 0, "structural": 0}
+
+
 def poly_judge(c):
     """Polynomial part of the semantic oracle, for frameworks of ANY size (used where the brute-force oracle skips a case):
     members of a returned set are (id, label) pairs of the framework, each once; the set is conflict-free, admissible
@@ -75,9 +78,27 @@ def poly_judge(c):
     if len(k) < 4 or k[0] not in ("static", "static-multi") or not c.outs:
         return None
     sem, q = k[1], k[2]
+    want_cert = len(k) >= 4 and k[3] == "cert"
     o = parse_outcome(c.outs[0])
-    if o["kind"] not in ("ext", "acc"):
-        return None
+    POLY_STATS["structural"] += 1
+    # the structural part of the brute-force oracle (driver/d_spec.ml), which needs no enumeration: a panic is a panic at
+    # any size; the kind of answer must fit the question; a certificate appears exactly when promised
+    if o["kind"] == "panic":
+        return "panic"
+    if o["kind"] == "noext" and (q != "SE" or sem != "ST"):
+        return "bad poly-no-extension-reported-by-a-semantics-that-always-has-one"
+    if o["kind"] == "ext" and q != "SE":
+        return "bad unexpected-extension-output"
+    if o["kind"] == "acc":
+        if q == "SE":
+            return "bad acceptance-output-for-SE"
+        promised = want_cert and ((q == "DC" and o["status"] == "YES") or (q == "DS" and o["status"] == "NO"))
+        if promised and o.get("ext") is None:
+            return "bad certificate-missing"
+        if not promised and o.get("ext") is not None:
+            return "bad certificate-not-promised"
+    if o["kind"] not in ("ext", "acc", "noext"):
+        return "bad unparsable-output"
     live, rel = _framework_of_case(c)
     ids = set(live.values())
     byid = {i: l for l, i in live.items()}
@@ -97,8 +118,12 @@ def poly_judge(c):
         for a in ids:
             if a not in G and a not in D and attackers[a] <= D:
                 G.add(a); D |= targets[a]; ch = True
+    if o["kind"] == "noext":
+        # stable semantics: "no extension" is wrong at least when the grounded extension is stable
+        return "bad no-extension-reported-but-one-exists" if not (ids - G - D) else None
     if sem == "GR" and o["kind"] == "acc":
         want = any(a in G for a in args)
+        POLY_STATS["statuses_decided"] += 1
         if (o["status"] == "YES") != want:
             return "bad poly-grounded-status-%s-expected-%s" % (o["status"], "YES" if want else "NO")
     # statuses decided by the grounded extension alone, at any size: an argument of G is in every complete extension,
@@ -116,12 +141,15 @@ def poly_judge(c):
                 want = True
             if q == "DC" and all_in_d:
                 want = False
+        if want is not None:
+            POLY_STATS["statuses_decided"] += 1
         if want is not None and (o["status"] == "YES") != want:
             return "bad poly-status-%s-decided-by-the-grounded-extension-expected-%s" % (o["status"], "YES" if want else "NO")
     e = o.get("ext")
     if e is None:
         return None
     S = set()
+    POLY_STATS["returned_sets_tested"] += 1
     for m in e:
         i, _, lab = m.partition(":")
         if not i.isdigit() or byid.get(int(i)) != lab:
@@ -281,6 +309,10 @@ def static_check(ctx, mode, total, extra="", select=None, oracle_relevant=None, 
                                       c.text(), found_input=True, key="badsat")
             if canon_outcome(o0) != canon_outcome(mo):
                 corr = corr or (c, "outcome: impl `%s` model `%s`" % (o0[:120], mo[:120]))
+    stats["polynomial_oracle"] = dict(POLY_STATS)
+    if any("--large" in e2 for (_, t2, e2) in more_runs if t2 > 0) and "--faults" not in extra:
+        # the --large run exists to be judged by the polynomial oracle: it must have decided something
+        ctx.floor("large_cases_decided_by_the_polynomial_oracle", POLY_STATS["statuses_decided"] + POLY_STATS["returned_sets_tested"])
     if stats.get("oracle_verdict_missing", 0) and not ctx.violations:
         ctx.violation("the brute-force oracle (driver spec) produced no verdict for %d of %d cases: the implementation-level judge is not running"
                       % (stats["oracle_verdict_missing"], stats["cases"]), "driver spec: missing verdicts\n", found_input=False)
@@ -297,6 +329,11 @@ def static_check(ctx, mode, total, extra="", select=None, oracle_relevant=None, 
             ctx.log("correspondence broken at %s; search round %d for a failing input" % (corr[0].kind, rnd + 1))
             sh2 = run_mode(ctx, h, d, mode, max(total, 2000) * (4 + 4 * rnd), extra=extra, tag="search%d" % rnd, seed_offset=100 + rnd,
                            drv_modes=[("spec", ("--max-n %d " % mn) + spec_opts)])
+            # the additional runs of this check (e.g. `--large`: judged by the polynomial oracle) are searched as well
+            for i, (mode2, total2, extra2) in enumerate(more_runs):
+                if total2 > 0:
+                    sh2 += run_mode(ctx, h, d, mode2, total2 * (4 + 4 * rnd), extra=extra2, tag="search%d-%d" % (rnd, i), seed_offset=120 + 10 * rnd + i,
+                                    drv_modes=[("spec", ("--max-n %d " % mn) + spec_opts)])
             for sh_ in sh2:
                 if isinstance(sh_[0], str):
                     continue
@@ -307,6 +344,10 @@ def static_check(ctx, mode, total, extra="", select=None, oracle_relevant=None, 
                         continue
                     sp = ss2.get(c.id)
                     v = verdict_of(sp) if sp else "missing"
+                    if v.startswith("skipped"):
+                        pv = poly_judge(c)
+                        if pv is not None:
+                            v = pv
                     o0 = c.outs[0] if c.outs else ""
                     if has_dup(o0):
                         v = "bad duplicate-member"
